@@ -169,10 +169,68 @@ class ScaleEval:
             return None
         return None
 
+    # -- element factor of an accumulator list: all values appended to `name` in this function
+    def elem_factor(self, name: str, depth=0) -> Factor:
+        facs = []
+        for n in ast.walk(self.f.node):
+            if isinstance(n, ast.Call) and isinstance(n.func, ast.Attribute) and n.func.attr == 'append' \
+                    and isinstance(n.func.value, ast.Name) and n.func.value.id == name and n.args:
+                facs.append(self.factor(n.args[0], depth + 1))
+        if not facs or any(f is None for f in facs) or any(f != facs[0] for f in facs):
+            return None
+        return facs[0]
+
+    def _stack_name(self, e: ast.expr) -> Optional[str]:
+        """X, np.array(X), np.stack(X) ... where X is (a re-binding of) an accumulator list"""
+        if isinstance(e, ast.Call) and _leaf(e.func) in ('array', 'asarray', 'stack', 'vstack') and e.args:
+            return self._stack_name(e.args[0])
+        if isinstance(e, ast.Name):
+            d = self.def_of(e)
+            if d is not None and d.kind == 'assign' and isinstance(d.node, ast.Assign) \
+                    and self._unpack_index(d, e.id) is None:
+                inner = self._stack_name(d.node.value)
+                if inner:
+                    return inner
+            return e.id
+        return None
+
+    def _mean_axis0(self, e: ast.expr, depth) -> Factor:
+        """sum-over-axis-0(X) / X.shape[0]  or  np.mean(X, axis=0): factor of the elements of X"""
+        num = den = None
+        if isinstance(e, ast.BinOp) and isinstance(e.op, ast.Div):
+            l, r = e.left, e.right
+            red = None
+            if isinstance(l, ast.Call):
+                nm = _leaf(l.func)
+                if nm == 'einsum' and len(l.args) == 2 and isinstance(l.args[0], ast.Constant) \
+                        and str(l.args[0].value).replace(' ', '') in ('ij->j', 'i...->...'):
+                    red = l.args[1]
+                elif nm in ('sum', 'nansum') and _kw_int(l, 'axis') == 0:
+                    red = l.args[0] if l.args else (l.func.value if isinstance(l.func, ast.Attribute) else None)
+            cnt = None
+            if isinstance(r, ast.Subscript) and isinstance(r.value, ast.Attribute) and r.value.attr == 'shape' \
+                    and isinstance(r.slice, ast.Constant) and r.slice.value == 0:
+                cnt = r.value.value
+            elif isinstance(r, ast.Call) and isinstance(r.func, ast.Name) and r.func.id == 'len' and r.args:
+                cnt = r.args[0]
+            if red is not None and cnt is not None:
+                a, b = self._stack_name(red), self._stack_name(cnt)
+                if a and a == b:
+                    return self.elem_factor(a, depth)
+        if isinstance(e, ast.Call) and _leaf(e.func) in ('mean', 'nanmean') and _kw_int(e, 'axis') == 0:
+            src = e.args[0] if e.args else (e.func.value if isinstance(e.func, ast.Attribute) else None)
+            a = self._stack_name(src) if src is not None else None
+            if a:
+                return self.elem_factor(a, depth)
+        return None
+
     # -- factor of a value expression
     def factor(self, e: ast.expr, depth=0) -> Factor:
         if depth > 25:
             return None
+        m = self._mean_axis0(e, depth)
+        if m is not None:
+            return m
         if isinstance(e, ast.Constant):
             return {} if isinstance(e.value, (int, float)) else None
         if isinstance(e, ast.Name):
@@ -252,15 +310,34 @@ class ScaleEval:
             if nm in SOURCE_CALL_AXES:
                 return None
             # repo helper with a known summary
-            if nm == '_calc_rdm_crossnobis_single':
-                return SUMMARY.get('rdm.calc._calc_rdm_crossnobis_single')
+            q = 'rdm.calc.' + nm
+            if q in RETURN_SUMMARIES and self.prog.has_func(q) and q != self.q:
+                return return_factor(self.ctx, q)
             return None
         if isinstance(e, (ast.List, ast.Tuple)) and len(e.elts) == 1:
             return self.factor(e.elts[0], depth + 1)
         return None
 
 
-SUMMARY: Dict[str, Factor] = {}
+RETURN_SUMMARIES = {'rdm.calc._calc_rdm_crossnobis_single'}
+_ret_cache: Dict[Tuple[int, str], Factor] = {}
+
+
+def return_factor(ctx, q: str) -> Factor:
+    key = (id(ctx), q)
+    if key not in _ret_cache:
+        _ret_cache[key] = None
+        ev = ScaleEval(ctx, q)
+        facs = [ev.factor(n.value) for n, _, _ in ev.res.returns if n is not None and n.value is not None]
+        _ret_cache[key] = facs[0] if facs and all(f is not None and f == facs[0] for f in facs) else None
+    return _ret_cache[key]
+
+
+def _kw_int(c: ast.Call, name: str):
+    for k in c.keywords:
+        if k.arg == name and isinstance(k.value, ast.Constant):
+            return k.value.value
+    return None
 
 
 def _mentions(e: ast.expr, var: str) -> bool:
